@@ -730,6 +730,9 @@ func (tic *TermInCommittee) validateViewChangeVotes(targetBlockHeight primitives
 		if set[senderMemberIdStr] {
 			return fmt.Errorf("memberId %s appears in more than one confirmation", senderMemberIdStr)
 		}
+		if err := tic.keyManager.VerifyConsensusMessage(confirmationBlockHeight, confirmation.SignedHeader().Raw(), confirmation.Sender()); err != nil {
+			return fmt.Errorf("confirmation of memberId %s failed signature verification: %s", senderMemberIdStr, err)
+		}
 		set[senderMemberIdStr] = true
 	}
 
